@@ -329,12 +329,31 @@ func gen(t *rapid.T) Case {
 		dates := []string{"2019-05-05", "2020-01-01", "2021-12-31"}
 		kinds := []string{"string", "int32", "boolean"}
 		n := rapid.IntRange(2, 3).Draw(t, "revisions")
+		// the oldest member may be a text without revision statement, which a dated one supersedes
+		undated := rapid.IntRange(0, 2).Draw(t, "oldest-without-revision") == 0
+		// the members may include a submodule that holds an identity and a typedef they build on
+		withSub := rapid.IntRange(0, 2).Draw(t, "family-submodule") == 0
 		for i := 0; i < n; i++ {
-			c.Good = append(c.Good, ymodel.Source{Name: "fam@" + dates[i] + ".yang", Text: fmt.Sprintf("module fam {\n namespace \"urn:fam\";\n prefix f;\n revision %s;\n typedef t { type %s; units \"r%d\"; }\n grouping g { leaf from-r%d { type t; } }\n identity id;\n identity sub%d { base id; }\n container c%d { leaf own { type t; } }\n container c { }\n}\n", dates[i], kinds[i], i, i, i, i)})
+			name, rev, inc, viaSub := "fam@"+dates[i]+".yang", " revision "+dates[i]+";\n", "", ""
+			if i == 0 && undated {
+				name, rev = "fam.yang", ""
+			}
+			if withSub {
+				inc = " include famsub;\n"
+				viaSub = fmt.Sprintf(" identity viasub%d { base sid; }\n leaf vs { type st; }\n", i)
+			}
+			c.Good = append(c.Good, ymodel.Source{Name: name, Text: fmt.Sprintf("module fam {\n namespace \"urn:fam\";\n prefix f;\n%s%s typedef t { type %s; units \"r%d\"; }\n grouping g { leaf from-r%d { type t; } }\n identity id;\n identity sub%d { base id; }\n typedef lt { type identityref { base id; } }\n leaf ll { type lt; }\n%s container c%d { leaf own { type t; } }\n container c { }\n}\n", inc, rev, kinds[i], i, i, i, viaSub, i)})
+		}
+		if withSub {
+			c.Good = append(c.Good, ymodel.Source{Name: "famsub.yang", Text: "submodule famsub {\n belongs-to fam { prefix f; }\n identity sid;\n typedef st { type identityref { base sid; } }\n leaf insub { type st; }\n}\n"})
 		}
 		c.Good = append(c.Good, ymodel.Source{Name: "famuser.yang", Text: "module famuser {\n namespace \"urn:famuser\";\n prefix u;\n import fam { prefix f; }\n leaf l { type f:t; }\n container k { uses f:g; }\n leaf r { type identityref { base f:id; } }\n typedef tid { type identityref { base f:id; } }\n leaf viatd { type tid; }\n typedef tt { type f:t; }\n leaf viatt { type tt; }\n identity mine { base f:id; }\n augment \"/f:c\" { leaf added { type string; } }\n}\n"})
 		if rapid.Bool().Draw(t, "dated-user") {
-			d := dates[rapid.IntRange(0, n-1).Draw(t, "dated-user-revision")]
+			lo := 0
+			if undated {
+				lo = 1
+			}
+			d := dates[rapid.IntRange(lo, n-1).Draw(t, "dated-user-revision")]
 			c.Good = append(c.Good, ymodel.Source{Name: "famuser2.yang", Text: fmt.Sprintf("module famuser2 {\n namespace \"urn:famuser2\";\n prefix u;\n import fam { prefix f; revision-date %s; }\n leaf l { type f:t; }\n container k { uses f:g; }\n augment \"/f:c\" { leaf added2 { type string; } }\n}\n", d)})
 		}
 	}
